@@ -131,9 +131,10 @@ Section Db.
     match path with
     | [] => Err IndexError
     | p0 :: rest =>
-        if negb (has_key p0 d) then Ok d
+        k0 <- branch_key [p0] ;;     (* the root's own key: an identifier that spells an inner key is refused *)
+        if negb (has_key k0 d) then Ok d
         else match rest with
-             | [] => delete_sub_tree (S (length d)) p0 d
+             | [] => delete_sub_tree (S (length d)) k0 d
              | _ =>
                  (* the code computes the keys inside the loop, leaf first; a path whose full key
                     passes the divider guard has only prefixes that pass it, so computing all
